@@ -172,6 +172,17 @@ def _degenerate():
         m = event.Monitor(event.EventMap())
         return Harness(m, flat_ports(m), mon=m)
 
+    def evmap300():
+        em = event.EventMap()
+        srcs = [event.Source(trigger=("level", "rise", "fall")[i % 3], path=(f"s{i}",)) for i in range(700)]
+        for s_ in srcs:
+            em.add(s_)
+        m = event.Monitor(em)
+        ports = flat_ports(m) + flat_ports(*srcs, env="out")
+        from ..nir2smt import raw
+        ports.env.discard(id(raw(m.pending)))       # declared In, driven by the monitor itself
+        return Harness(m, ports, mon=m)
+
     def evmon0():
         m = EventMonitor(event.EventMap(), data_width=8)
         return Harness(m, flat_ports(m), mon=m)
@@ -195,7 +206,7 @@ def _degenerate():
         return Harness(br, flat_ports(br, bus), br=br, bus=bus)
 
     return {"mux-registers-wider-than-their-ranges": mux_wide_regs, "mux-sparse-40-bit-no-sharing": mux_sparse, "mux-empty": mux([]), "mux-write-only": mux(["w", "w"]), "mux-read-only": mux(["r"]), "csr-decoder-empty": csr_dec,
-            "wishbone-decoder-empty": wb_dec, "wishbone-decoder-sub-word-sparse-windows": wb_dec_narrow, "arbiter-no-initiators": arb0, "event-monitor-no-events": evmap0,
+            "wishbone-decoder-empty": wb_dec, "wishbone-decoder-sub-word-sparse-windows": wb_dec_narrow, "arbiter-no-initiators": arb0, "event-monitor-no-events": evmap0, "event-monitor-700-events": evmap300,
             "csr-event-monitor-no-events": evmon0, "gpio-one-pin": gpio1, "sram-two-words": sram1,
             "bridge-empty-map": bridge_empty, "wishbone-csr-bridge-minimal": wbcsr_min}
 
@@ -290,7 +301,7 @@ REFUSALS = ["csr-add-twice", "csr-add-overlap", "csr-add-name-clash", "csr-add-o
             "map-window-into-itself-twice"]
 
 DEGENERATE = ["mux-registers-wider-than-their-ranges", "mux-sparse-40-bit-no-sharing", "mux-empty", "mux-write-only", "mux-read-only", "csr-decoder-empty", "wishbone-decoder-empty", "wishbone-decoder-sub-word-sparse-windows",
-              "arbiter-no-initiators", "event-monitor-no-events", "csr-event-monitor-no-events", "gpio-one-pin",
+              "arbiter-no-initiators", "event-monitor-no-events", "event-monitor-700-events", "csr-event-monitor-no-events", "gpio-one-pin",
               "sram-two-words", "bridge-empty-map", "wishbone-csr-bridge-minimal"]
 
 
